@@ -1,8 +1,10 @@
 (** C02 — a forwarding node never loses money on an HTLC it forwards.
     This file holds only theorem statements closed by [exact]; proofs are in Proofs/C02*.v.
-    Part 1 (this section): admission arithmetic, for ALL amounts / fees / deltas in type range. *)
-Require Import LdkV.Prim.U64 LdkV.Gen.Consts LdkV.Gen.ConstsC02 LdkV.Model.CltvHand
-  LdkV.Model.FwdAdmission LdkV.Proofs.C02Admission.
+    Part 1: admission arithmetic, for ALL amounts / fees / deltas in type range. Every function named
+    here except the glue of Model/FwdAdmission.v ([cfg_run], [htlc_satisfies_config],
+    [unknown_chan_sanity]) is GENERATED from the Rust source by tools/rs2v on each run. *)
+Require Import LdkV.Prim.U64 LdkV.Prim.Rs2vLib LdkV.Gen.Consts LdkV.Gen.CltvChecks LdkV.Gen.CfgChecks
+  LdkV.Gen.FwdChecks LdkV.Model.FwdAdmission LdkV.Proofs.C02Admission.
 Open Scope Z_scope.
 
 (** The per-config check accepts exactly when the offered amount plus the advertised fee on it fits
@@ -10,16 +12,18 @@ Open Scope Z_scope.
 Theorem C02_fee_check_exact : forall in_amt in_cltv out_amt out_cltv c,
   0 <= out_amt ->
   internal_htlc_satisfies_config in_amt in_cltv out_amt out_cltv c = ROk tt <->
-  (out_amt * fc_prop c < 2 ^ 64 /\ adv_fee c out_amt < 2 ^ 64 /\
-   out_amt + adv_fee c out_amt <= in_amt /\ out_cltv + fc_delta c <= in_cltv).
+  (out_amt * cc_forwarding_fee_proportional_millionths c < 2 ^ 64 /\ adv_fee c out_amt < 2 ^ 64 /\
+   out_amt + adv_fee c out_amt <= in_amt /\ out_cltv + cc_cltv_expiry_delta c <= in_cltv).
 Proof. exact internal_ok_iff. Qed.
 
 Theorem C02_fee_check_errors : forall in_amt in_cltv out_amt out_cltv c,
   0 <= out_amt ->
-  (~ (out_amt * fc_prop c < 2 ^ 64 /\ adv_fee c out_amt < 2 ^ 64 /\ out_amt + adv_fee c out_amt <= in_amt) ->
+  (~ (out_amt * cc_forwarding_fee_proportional_millionths c < 2 ^ 64 /\ adv_fee c out_amt < 2 ^ 64 /\
+      out_amt + adv_fee c out_amt <= in_amt) ->
      internal_htlc_satisfies_config in_amt in_cltv out_amt out_cltv c = RErr "FeeInsufficient") /\
-  ((out_amt * fc_prop c < 2 ^ 64 /\ adv_fee c out_amt < 2 ^ 64 /\ out_amt + adv_fee c out_amt <= in_amt) ->
-     in_cltv < out_cltv + fc_delta c ->
+  ((out_amt * cc_forwarding_fee_proportional_millionths c < 2 ^ 64 /\ adv_fee c out_amt < 2 ^ 64 /\
+    out_amt + adv_fee c out_amt <= in_amt) ->
+     in_cltv < out_cltv + cc_cltv_expiry_delta c ->
      internal_htlc_satisfies_config in_amt in_cltv out_amt out_cltv c = RErr "IncorrectCLTVExpiry").
 Proof. exact internal_errors. Qed.
 
@@ -45,12 +49,12 @@ Theorem C02_admission : forall s0 ops h in_amt in_cltv out_amt out_cltv,
   cfg_inv s0 ->
   let s := cfg_run s0 ops in
   htlc_satisfies_config s in_amt in_cltv out_amt out_cltv = ROk tt ->
-  h_check_incoming_htlc_cltv h out_cltv in_cltv MIN_CLTV_EXPIRY_DELTA = ROk tt ->
+  check_incoming_htlc_cltv h out_cltv in_cltv MIN_CLTV_EXPIRY_DELTA = ROk tt ->
   exists c,
     (c = cs_cur s \/ exists n, cs_prev s = Some (c, n) /\ 0 <= n < EXPIRE_PREV_CONFIG_TICKS) /\
     out_amt + adv_fee c out_amt <= in_amt /\
-    out_cltv + fc_delta c <= in_cltv /\
-    MIN_CLTV_EXPIRY_DELTA <= fc_delta c /\
+    out_cltv + cc_cltv_expiry_delta c <= in_cltv /\
+    MIN_CLTV_EXPIRY_DELTA <= cc_cltv_expiry_delta c /\
     out_cltv + MIN_CLTV_EXPIRY_DELTA <= in_cltv /\
     in_cltv > h + HTLC_FAIL_BACK_BUFFER /\ out_cltv > h + LATENCY_GRACE_PERIOD_BLOCKS.
 Proof. exact admission. Qed.
@@ -58,13 +62,13 @@ Proof. exact admission. Qed.
 Theorem C02_admission_complete : forall s in_amt in_cltv out_amt out_cltv c,
   0 <= out_amt ->
   (c = cs_cur s \/ exists n, cs_prev s = Some (c, n)) ->
-  out_amt * fc_prop c < 2 ^ 64 -> adv_fee c out_amt < 2 ^ 64 ->
-  out_amt + adv_fee c out_amt <= in_amt -> out_cltv + fc_delta c <= in_cltv ->
+  out_amt * cc_forwarding_fee_proportional_millionths c < 2 ^ 64 -> adv_fee c out_amt < 2 ^ 64 ->
+  out_amt + adv_fee c out_amt <= in_amt -> out_cltv + cc_cltv_expiry_delta c <= in_cltv ->
   htlc_satisfies_config s in_amt in_cltv out_amt out_cltv = ROk tt.
 Proof. exact htlc_satisfies_config_complete. Qed.
 
 Theorem C02_admission_never_pays : forall c in_amt out_amt,
-  0 <= fc_prop c -> 0 <= fc_base c -> 0 <= out_amt ->
+  0 <= cc_forwarding_fee_proportional_millionths c -> 0 <= cc_forwarding_fee_base_msat c -> 0 <= out_amt ->
   out_amt + adv_fee c out_amt <= in_amt ->
   out_amt <= in_amt /\ adv_fee c out_amt <= in_amt - out_amt /\ 0 <= adv_fee c out_amt.
 Proof. exact admission_no_loss. Qed.
@@ -74,52 +78,55 @@ Theorem C02_unknown_channel_sanity : forall in_amt in_cltv out_amt out_cltv,
   out_amt <= in_amt /\ out_cltv + MIN_CLTV_EXPIRY_DELTA <= in_cltv.
 Proof. exact unknown_chan_sanity_sound. Qed.
 
-(** Blinded forwards: [amt_to_forward_msat] returns the LARGEST amount whose fee still fits. *)
-Theorem C02_amt_to_forward_largest : forall inbound base prop,
-  0 <= inbound < 2 ^ 64 -> 0 <= base -> 0 <= prop ->
-  match amt_to_forward_msat inbound base prop with
-  | Some a => 0 < a /\ gross base prop a <= inbound /\ (forall a', a < a' -> inbound < gross base prop a')
-  | None => forall a', 0 < a' -> inbound < gross base prop a'
+(** Blinded forwards: [amt_to_forward_msat] returns the LARGEST amount whose fee still fits (an
+    off-by-one either way loses or overcharges 1 msat), or [None] exactly when nothing fits. *)
+Theorem C02_amt_to_forward_largest : forall inbound r,
+  0 <= inbound < 2 ^ 64 -> 0 <= pr_fee_base_msat r -> 0 <= pr_fee_proportional_millionths r ->
+  match amt_to_forward_msat inbound r with
+  | Some a => 0 < a /\ relay_gross r a <= inbound /\ (forall a', a < a' -> inbound < relay_gross r a')
+  | None => forall a', 0 < a' -> inbound < relay_gross r a'
   end.
 Proof. exact amt_to_forward_spec. Qed.
 
-Theorem C02_amt_to_forward_inverts_fee : forall base prop a,
-  0 < a -> 0 <= base -> 0 <= prop -> gross base prop a < 2 ^ 64 ->
-  amt_to_forward_msat (gross base prop a) base prop = Some a.
+Theorem C02_amt_to_forward_inverts_fee : forall r a,
+  0 < a -> 0 <= pr_fee_base_msat r -> 0 <= pr_fee_proportional_millionths r -> relay_gross r a < 2 ^ 64 ->
+  amt_to_forward_msat (relay_gross r a) r = Some a.
 Proof. exact amt_to_forward_inverts. Qed.
 
-Theorem C02_amt_to_forward_no_panic : forall inbound base prop,
-  in_u 64 inbound = true -> in_u 32 base = true -> in_u 32 prop = true ->
-  amt_to_forward_msat_safe inbound base prop = true.
+Theorem C02_amt_to_forward_no_panic : forall inbound r,
+  in_u 64 inbound = true -> relay_in_range r = true ->
+  amt_to_forward_msat_safe inbound r = true.
 Proof. exact amt_to_forward_safe. Qed.
 
-Theorem C02_blinded_admission : forall in_amt in_cltv base prop delta hmin maxc out_amt out_cltv,
-  0 <= in_amt < 2 ^ 64 -> 0 <= base -> 0 <= prop -> 0 <= delta ->
-  check_blinded_forward in_amt in_cltv base prop delta hmin maxc = Some (out_amt, out_cltv) ->
-  0 < out_amt /\ out_amt + (out_amt * prop / 1000000 + base) <= in_amt /\
-  (forall a', out_amt < a' -> in_amt < a' + (a' * prop / 1000000 + base)) /\
-  out_cltv + delta = in_cltv /\ 0 <= out_cltv /\ hmin <= in_amt /\ in_cltv <= maxc /\
-  (out_amt * prop < 2 ^ 64 ->
+Theorem C02_blinded_admission : forall in_amt in_cltv r pc unk out_amt out_cltv,
+  0 <= in_amt < 2 ^ 64 -> 0 <= pr_fee_base_msat r -> 0 <= pr_fee_proportional_millionths r ->
+  0 <= pr_cltv_expiry_delta r ->
+  check_blinded_forward in_amt in_cltv r pc unk = ROk (out_amt, out_cltv) ->
+  0 < out_amt /\ relay_gross r out_amt <= in_amt /\
+  (forall a', out_amt < a' -> in_amt < relay_gross r a') /\
+  out_cltv + pr_cltv_expiry_delta r = in_cltv /\ 0 <= out_cltv /\
+  pc_htlc_minimum_msat pc <= in_amt /\ in_cltv <= pc_max_cltv_expiry pc /\ unk = false /\
+  (out_amt * pr_fee_proportional_millionths r < 2 ^ 64 ->
    internal_htlc_satisfies_config in_amt in_cltv out_amt out_cltv
-     {| fc_prop := prop; fc_base := base; fc_delta := delta |} = ROk tt).
+     (mkChannelConfig (pr_fee_proportional_millionths r) (pr_fee_base_msat r) (pr_cltv_expiry_delta r)) = ROk tt).
 Proof. exact blinded_forward_sound. Qed.
 
 (** Non-vacuity. *)
 Example C02_admission_nonvacuous :
-  let s0 := {| cs_cur := {| fc_prop := 0; fc_base := 1000; fc_delta := 48 |}; cs_prev := None |} in
-  let ops := [OpUpdate {| fc_prop := 1000; fc_base := 5; fc_delta := 60 |}; OpTick; OpTick] in
+  let s0 := {| cs_cur := mkChannelConfig 0 1000 48; cs_prev := None |} in
+  let ops := [OpUpdate (mkChannelConfig 1000 5 60); OpTick; OpTick] in
   cfg_inv s0 /\
-  cs_prev (cfg_run s0 ops) = Some ({| fc_prop := 0; fc_base := 1000; fc_delta := 48 |}, 2) /\
+  cs_prev (cfg_run s0 ops) = Some (mkChannelConfig 0 1000 48, 2) /\
   (* satisfies only the previous config *)
   htlc_satisfies_config (cfg_run s0 ops) 2000000 800 1999000 752 = ROk tt /\
   internal_htlc_satisfies_config 2000000 800 1999000 752 (cs_cur (cfg_run s0 ops)) = RErr "FeeInsufficient" /\
-  h_check_incoming_htlc_cltv 700 752 800 MIN_CLTV_EXPIRY_DELTA = ROk tt.
+  check_incoming_htlc_cltv 700 752 800 MIN_CLTV_EXPIRY_DELTA = ROk tt.
 Proof. vm_compute. repeat split; try discriminate; reflexivity. Qed.
 
 Example C02_amt_to_forward_examples :
-  amt_to_forward_msat 1000 10 1000 = Some 990 /\
-  amt_to_forward_msat 10 10 1000 = None /\
-  amt_to_forward_msat 11 10 1000 = Some 1 /\
-  amt_to_forward_msat (2 ^ 64 - 1) 0 0 = Some (2 ^ 64 - 1) /\
-  check_blinded_forward 1000 500 10 1000 40 1 600 = Some (990, 460).
+  amt_to_forward_msat 1000 (mkPaymentRelay 40 1000 10) = Some 990 /\
+  amt_to_forward_msat 10 (mkPaymentRelay 40 1000 10) = None /\
+  amt_to_forward_msat 11 (mkPaymentRelay 40 1000 10) = Some 1 /\
+  amt_to_forward_msat (2 ^ 64 - 1) (mkPaymentRelay 0 0 0) = Some (2 ^ 64 - 1) /\
+  check_blinded_forward 1000 500 (mkPaymentRelay 40 1000 10) (mkPaymentConstraints 600 1) false = ROk (990, 460).
 Proof. vm_compute. repeat split; reflexivity. Qed.
